@@ -30,7 +30,7 @@ REF_PIDS = {
     "g32": "C04,C05,C07,C10,C11", "g42": "C04,C05,C07,C10,C11",
     "g51": "C02,C12,C16", "g52": "C01,C04,C07,C09,C10,C13,C18",
     "g61": "C06,C08,C09,C13,C14", "g71": "C01,C03,C06,C07,C08,C09,C12,C14,C16", "g72": "C02,C07,C08,C10,C11,C14,C20",
-    "g81": "C04,C05,C10,C11,C20", "g91": "C01,C02,C03,C08,C12,C14", "g101": "C01,C04,C06,C10,C12,C18,C20", "g111": "C01,C08,C12,C14",
+    "g81": "C04,C05,C10,C11,C20", "g91": "C01,C02,C03,C08,C12,C14", "g101": "C01,C04,C06,C10,C12,C18,C20", "g111": "C01,C08,C12,C14", "g121": "C02,C03,C05,C09,C11,C13,C14",
 }
 
 
